@@ -171,6 +171,21 @@ func (s *Sched) yield(owner interface{}, site string) {
 	<-p.ch
 }
 
+// parkSelf parks the calling harness goroutine until the driver releases it.
+func (s *Sched) parkSelf(node, site string) {
+	gid := goid()
+	s.mu.Lock()
+	name := s.names[gid]
+	p := &Parked{Name: name, Node: node, Site: site, ch: make(chan struct{}), gid: gid}
+	s.parked[gid] = p
+	s.mu.Unlock()
+	select {
+	case s.notify <- struct{}{}:
+	default:
+	}
+	<-p.ch
+}
+
 // point is installed as glow.VerifPointHook.
 func (s *Sched) point(owner interface{}, site string) {
 	s.mu.Lock()
@@ -261,6 +276,9 @@ type Sim struct {
 	// site; it returns true if it wants the goroutine kept parked.
 	OnPark func(p *Parked)
 
+	// ReleaseLog lists, in order, every goroutine release (name@site).
+	ReleaseLog []string
+
 	taskSeq  int
 	inOnPark bool
 	Preempts int
@@ -308,6 +326,7 @@ func (m *Sim) Settle() {
 			m.inOnPark = false
 		}
 		m.Sig = append(m.Sig, "r:"+p.Site)
+		m.ReleaseLog = append(m.ReleaseLog, p.Name+"@"+p.Site)
 		m.S.Release(p)
 	}
 }
@@ -318,6 +337,9 @@ func (m *Sim) Go(name string, fn func()) *Task {
 	t := &Task{Name: fmt.Sprintf("op%03d:%s", m.taskSeq, name), done: make(chan struct{})}
 	go func() {
 		m.S.nameSelf(t.Name)
+		// Every task parks before its first instruction: when it starts to
+		// run is a scheduler decision like any other.
+		m.S.parkSelf("task", "task.start")
 		defer func() {
 			if r := recover(); r != nil {
 				if v, ok := r.(*Violation); ok {
